@@ -25,7 +25,7 @@ def _has_comm(case) -> bool:
 
 
 def gen(rng, tier, no, wide=False):
-    return C.gen_with(rng, _has_comm)
+    return C.gen_with(rng, _has_comm, **({"stream_zero": True} if rng.random() < 0.15 else {}))
 
 
 def wf(case) -> bool:
